@@ -9,6 +9,10 @@ mkdir -p $SC/repo $SC/verif
 for item in "$@"; do
   PATCH=$(readlink -f "${item%%:*}"); CHECKS=${item#*:}
   rsync -a --delete --exclude target --exclude .git /repo/ $SC/repo/
+  # files restored by rsync keep their old mtime: cargo would consider the crate of the PREVIOUS patch fresh and
+  # keep that patch compiled in. Touch what the previous patch had changed.
+  if [ -n "${PREVFILES:-}" ]; then ( cd $SC/repo && touch $PREVFILES 2>/dev/null ); fi
+  PREVFILES=$(git apply --numstat "$PATCH" | awk '{print $3}' | tr '\n' ' ')
   ( cd $SC/verif && find . -mindepth 1 -maxdepth 1 ! -name harness -exec rm -rf {} + ; mkdir -p harness; find harness -mindepth 1 -maxdepth 1 ! -name target -exec rm -rf {} + )
   git -C /verif archive HEAD | tar -x -C $SC/verif
   ( cd $SC/repo && git apply "$PATCH" ) || { echo "SEEDTEST $PATCH DOES-NOT-APPLY"; continue; }
